@@ -365,6 +365,7 @@ let run_line line =
         | "ENCODE" -> op_encode args
         | "BUILDSEQ" -> op_buildseq_line args
         | "ROUNDTRIP" -> op_roundtrip_line args
+        | "ROUNDTRIPH" -> op_roundtrip_line args   (* the builder's history is irrelevant: theorem C12_history *)
         | "REDECODE" -> op_redecode_line args
         | "PUT" -> op_put_line args
         | "PARSE" -> op_parse_line args
